@@ -19,6 +19,7 @@
   poll() are not modelled (real-process runs in the check).
 -/
 import PdshVerif.Relay.TailLemmas
+import PdshVerif.Relay.Interleave
 
 namespace PdshVerif.C05
 open PdshVerif.Relay
@@ -125,6 +126,22 @@ theorem relay_chunk_independent (cfg : Cfg) (host t0host : Bytes) (strm : Nat) (
   obtain ⟨h1, _⟩ := relay_closed_form cfg host t0host strm readRc hm1 hm2 hb0 script hdom
   obtain ⟨h2, _⟩ := relay_closed_form cfg host t0host strm readRc hm1 hm2 hb0 script' (hsame ▸ hdom)
   rw [h1, h2, hsame]
+
+/-- MANY HOSTS STREAMING AT ONCE, ALL INTERLEAVINGS.  `evs` is ANY global sequence of events
+    (chunk arrives on a stream and its handler runs | a stream finishes), over any number of
+    targets and both streams of each: the scheduler is universally quantified.  For every stream
+    `k` that, in this run, receives some cutting `script` of a stream in the domain and then
+    finishes, the stdio calls of `k` found in the GLOBAL output (in their global order) write
+    exactly `k`'s labelled stream -- whatever the other streams did in between. -/
+theorem relay_lossless_any_interleaving (cfg : Cfg) (names : Nat → Bytes) {sizeMeta : Nat} (hm1 : 1 ≤ sizeMeta)
+    (hm2 : sizeMeta ≤ 800) {b0 : PBuf} (hb0 : mkFifoBuf sizeMeta = some b0)
+    (evs : List (Key × LEv)) (k : Key) (script : List Bytes)
+    (hk : (evs.filter (fun e => e.1 = k)).map (·.2) = script.map LEv.feed ++ [LEv.finish])
+    (hdom : Spec.Dom05 (markerOf (!k.2)) script.flatten = true) :
+    written (logOf (evs.foldl (gstep fifoOps cfg names) (ginit b0)) k) =
+      Spec.render (labelPrefix cfg.labels cfg.keep (names k.1)) script.flatten := by
+  rw [global_stream_is_runStream fifoOps cfg names b0 evs k script hk]
+  exact relay_lossless cfg (names k.1) (names 0) (strmNo k) (!k.2) hm1 hm2 hb0 script hdom
 
 /-! ### `_extract_rc`: why the marker is excluded from the domain -/
 
